@@ -462,6 +462,12 @@ def field_cases(rng, fspecs, nper):
     fcases = []
     for s in fspecs:
         for be in BACKENDS:
+            if s["label"] in ("example1", "strings"):
+                # corpus (F12d): a subspace of string-valued file data against its in-memory twin
+                fcases.append({"spec": s, "backend": be, "backend2": be, "ops": [
+                    ["sub", 0, [["list", [0]], ["list", [5]], ["slice", 0, 2, 1]]], ["arr", 1],
+                    ["sub", 0, [["list", [1, 0]], ["slice", None, None, None], ["slice", None, None, None]]],
+                    ["eq", 1, 2], ["tomem", 2], ["str", 2]]})
             for _ in range(nper):
                 ops = []
                 for _k in range(rng.randint(3, 10)):
@@ -652,7 +658,7 @@ def judge_history(chk, c, r, spec, stats):
     heap_lit = glist(c["heap"], lambda hc: (f"(OnDisk 1%Z 0%Z {glist(hc['shape'], gz)})" if "missing" in hc else
                                              f"(OnDisk 0%Z {gz(var_ids[hc['var']])} {glist(byname[hc['var']]['shape'], gz)})"))
     obs_lit = glist(observed, lambda oe: f"({g_obs(oe[0])}, {glist(oe[1], g_event)})")
-    out["lit"] = (f"({vars_lit}, {heap_lit}, {gbool(c['backend'] == 'h5netcdf')}, {glist(c['ops'], g_op)}, {obs_lit})")
+    out["lit"] = (f"(({vars_lit}, {heap_lit}, {gbool(c['backend'] == 'h5netcdf')}, {glist(c['ops'], g_op)}, {obs_lit}) : ops_case)")
     nontriv = any(o[0] in ("sub", "set") and not C03.trivial_idx(o[2]) for o in c["ops"])
     if nontriv:
         out["key"] = lib.canon({"f": spec, "h": c["heap"], "o": c["ops"], "b": c["backend"]})
@@ -859,8 +865,8 @@ def run(chk, model_ok):
                          f"{label} ({be}): values differ from an eager netCDF4-python read: {e['raw_mismatch'][:2]}",
                          {"input": label, "observed": e["raw_mismatch"][:3]})
             fps[str(be)] = e["fp"]
-            rlits.append("(" + glist(sorted(roles), lambda k: f"({gz(var_ids[k])}, {glist(cf_shape(k), gz)}, {roles[k]['role']})")
-                         + f", {gbool(be == 'h5netcdf')}, {glist(sorted(fetched_ids), gz)}, {glist(sorted(inmem_ids), gz)})")
+            rlits.append("((" + glist(sorted(roles), lambda k: f"({gz(var_ids[k])}, {glist(cf_shape(k), gz)}, {roles[k]['role']})")
+                         + f", {gbool(be == 'h5netcdf')}, {glist(sorted(fetched_ids), gz)}, {glist(sorted(inmem_ids), gz)}) : read_case)")
             rlit_case.append((label, be, e["fetched"]))
         if len(set(fps.values())) > 1:
             chk.fail("property", "backends-differ",
